@@ -30,6 +30,10 @@ func Main(args []string) int {
 		return runC18(cfg, rest)
 	case "C19":
 		return runC19(cfg, rest)
+	case "C07", "C10":
+		return runGen(cfg, rest, prop)
+	case "GENDUMP":
+		return runGenDump(cfg, rest)
 	case "GENSTAT":
 		return runGenStat(cfg, rest)
 	}
